@@ -360,3 +360,67 @@ def _img2(p, q, x):
 COMPRESS = [_compress("PS", "swap, phase shifter, swap"), _compress("LOSS", "swap, loss, swap"), _compress("BS", "swap, beam splitter, swap"),
             _compress("GROUP3", "swap, group over three modes, swap")]
 CONTRACTS += COMPRESS
+
+
+# ---------------------------------------------------------------------------------------------- Circuit._freeze_params (C09 / C10)
+CIRC = "lightworks/sdk/circuit/circuit.py"
+_PARAM = "obj:Parameter{__value:real;__min_bound:none;__max_bound:none;label:none}"
+
+
+def _frozen_spec(kinds):
+    """a spec whose numeric settings are Parameter objects (fields symbolic)"""
+    def build(ex, name):
+        import z3
+        from vf.pyvc.values import CDict, CList, Obj
+        items = []
+        for i, k in enumerate(kinds):
+            p = f"{name}[{i}]"
+            par = lambda tag: ex.make(f"{p}.{tag}", _PARAM, f"{p}.{tag}")       # noqa: E731
+            if k == "PSP":
+                items.append(ex.alloc(Obj("PhaseShifter", (("mode", z3.Int(f"{p}.mode")), ("phi", par("phi")))), p))
+            elif k == "LOSSP":
+                items.append(ex.alloc(Obj("Loss", (("mode", z3.Int(f"{p}.mode")), ("loss", par("loss")))), p))
+            elif k == "BSP":
+                items.append(ex.alloc(Obj("BeamSplitter", (("mode_1", z3.Int(f"{p}.mode_1")), ("mode_2", z3.Int(f"{p}.mode_2")), ("reflectivity", par("reflectivity")),
+                                                            ("convention", "H"))), p))
+            elif k == "PS":
+                items.append(ex.alloc(Obj("PhaseShifter", (("mode", z3.Int(f"{p}.mode")), ("phi", z3.Real(f"{p}.phi")))), p))
+            else:
+                inner = _frozen_spec(k[1])(ex, f"{p}.circuit_spec")
+                her = ex.alloc(CDict((("input", ex.make(f"{p}.heralds.input", "dict[int,int]", f"{p}.heralds.input")),
+                                      ("output", ex.make(f"{p}.heralds.output", "dict[int,int]", f"{p}.heralds.output")))), f"{p}.heralds")
+                items.append(ex.alloc(Obj("Group", (("circuit_spec", inner), ("name", "g"), ("mode_1", z3.Int(f"{p}.mode_1")), ("mode_2", z3.Int(f"{p}.mode_2")), ("heralds", her))), p))
+        return ex.alloc(CList(tuple(items)), name)
+    build.label = "spec " + repr(kinds)
+    return build
+
+
+_CIRCUIT = ("obj:Circuit{__n_modes:int;__internal_modes:list[int];__in_heralds:dict[int,int];"
+            "__out_heralds:dict[int,int];__external_in_heralds:dict[int,int];__external_out_heralds:dict[int,int];__circuit_spec:glist}")
+
+_SHAPE = ("len(result) == 5 and isinstance(result[0], PhaseShifter) and isinstance(result[1], Loss) and isinstance(result[2], BeamSplitter) and "
+          "isinstance(result[3], PhaseShifter) and isinstance(result[4], Group)")
+FREEZE = Contract(
+    target=f"{CIRC}:Circuit._freeze_params",
+    types={"self": _CIRCUIT, "circuit_spec": _frozen_spec(("PSP", "LOSSP", "BSP", "PS", G("PSP", "LOSSP")))},
+    requires=[], modifies=[],
+    ensures={
+        # every component is carried over (also a loss element whose value is 0), one for one and in order, as a new object
+        "one_for_one": _SHAPE + " and " + " and ".join(f"fresh_ref(result[{i}])" for i in range(5)),
+        # parameters are replaced by the value they hold at this moment; plain values and modes are kept
+        "values_of_the_moment": "implies(" + _SHAPE + ", result[0].phi == circuit_spec[0].phi._Parameter__value and result[1].loss == circuit_spec[1].loss._Parameter__value and "
+                                "result[2].reflectivity == circuit_spec[2].reflectivity._Parameter__value and result[3].phi == circuit_spec[3].phi)",
+        "modes_kept": "implies(" + _SHAPE + ", result[0].mode == circuit_spec[0].mode and result[1].mode == circuit_spec[1].mode and result[2].mode_1 == circuit_spec[2].mode_1 and "
+                      "result[2].mode_2 == circuit_spec[2].mode_2 and result[2].convention == circuit_spec[2].convention and result[4].mode_1 == circuit_spec[4].mode_1)",
+        "inside_groups_too": "implies(" + _SHAPE + ", len(result[4].circuit_spec) == 2 and fresh_ref(result[4].circuit_spec) and result[4].circuit_spec[0].phi == circuit_spec[4].circuit_spec[0].phi._Parameter__value and "
+                             "result[4].circuit_spec[1].loss == circuit_spec[4].circuit_spec[1].loss._Parameter__value)",
+        # the spec that was passed in still holds its Parameter objects
+        "argument_keeps_its_parameters": "isinstance(circuit_spec[0].phi, Parameter) and isinstance(circuit_spec[1].loss, Parameter) and isinstance(circuit_spec[2].reflectivity, Parameter) and "
+                                         "isinstance(circuit_spec[4].circuit_spec[0].phi, Parameter) and len(circuit_spec[4].circuit_spec) == 2",
+    },
+    raises={}, props=["C09", "C10"],
+    inline=["_freeze_params"],
+)
+FREEZE.no_callee = True
+FREEZE.label = "phase / loss / reflectivity parameters, a plain value, a group"
+CONTRACTS += [FREEZE]
